@@ -134,6 +134,10 @@ class XElem:
         self.el = el
 
 
+class ModuleRaises(AnalysisError):
+    """Module-level code of the catalogue would raise when imported (decided by the constant evaluator)."""
+
+
 class _PyRaise(Exception):
     """A Python exception raised by the evaluated code."""
 
@@ -596,6 +600,12 @@ class Catalogue:
             return CBuiltin(n.id)
         if n.id in ("True", "False", "None"):
             return {"True": True, "False": False, "None": None}[n.id]
+        import builtins
+        if not hasattr(builtins, n.id):
+            # not a name of the module, of its imports or a builtin: Python raises NameError here
+            ln = getattr(n, "lineno", None) or getattr(self.cur, "lineno", "?")
+            raise ModuleRaises(f"{self.file}:{ln}: name '{n.id}' is not defined when the statement is executed "
+                               f"(NameError while the module is imported)")
         self.err(f"unknown name {n.id}", n)
 
     def _e_Tuple(self, n, env):
